@@ -338,6 +338,10 @@ def run(chk):
                              "system side behind the sweep and built from the current state, stored optimum updated once per root, direction switched at the end", 24)
     from .chain_rules import single_sweep_rule
     single_sweep_rule(chk, src, rule_sites="sweep-driver")
+    chk.rule("eigh-blocks", "eigh_qn as a whole on exact data (density matrix diagonal inside the sectors; charges of both signs): every sector with a partner on the other side is "
+             "diagonalised, columns carry their sector's label and sqrt(eigenvalue)", 4)
+    from . import decompose_rules as DR
+    DR.eigh_qn_rule(chk, src, "eigh-blocks")
     chk.rule("eigen-selection", "local solvers (abstract runs with the library solvers as recorders): lowest algebraic eigenvalue, with its own eigenvector, of the effective Hamiltonian handed in", 6)
     eigen_selection_rule(chk, src, "eigen-selection")
     chk.rule("arg-order", "kernels are called with same-named arguments in parameter order", 4)
